@@ -60,7 +60,14 @@ CFG = {
         "close-race, steal, tryclose, add-close-burst (k>=2 parked, an add and Close back to back from one goroutine), "
         "park-add-nil (k parked, k items some of which are boundary values), anyway-full (a bounded list filled up, then "
         "the retrying add - first seen asleep between two attempts - next to a consumer / after Close / next to Close; "
-        "MQ: TryClear at the end); every add on an unbounded list goes through its ...Anyway variant with probability "
+        "MQ: TryClear at the end), anyway-drain-park (full bounded list, the retrying add seen asleep in a 15-25 ms pause, "
+        "consumers drain the list and k more park, then the retry finds room); two race classes on FRESH queue objects "
+        "(persistent spinning goroutines released from a barrier with varying delays, 10^3..10^6 trials, one case "
+        "emitted per class: the violating trial if there is one): priq first-waitch-race (a Push racing the first "
+        "WaitCh(); judged after both returned: non-empty and nobody holding => channel readable) and pop-close-race "
+        "for every condition-variable type (5 consumers entering Pop/PopAnyway at the instant of Close; violation only "
+        "on the positive observation `Close has returned and every consumer not yet back is parked in cond.Wait`); "
+        "the schedule classes stop after 60 s (90 s in the violation search) and after two stuck schedules; every add on an unbounded list goes through its ...Anyway variant with probability "
         "1/4 (every other add in the stress class), MQ schedules contain TryClear; in every class about one item in eight is "
         "a boundary value of interface{} - the nil interface, a typed nil pointer, \"\", int(0), false, struct{}{} - "
         "each used at most once per schedule and identified by a reserved negative id (the nil interface is not used "
